@@ -789,3 +789,332 @@ Section JoinBounds.
     lia.
   Qed.
 End JoinBounds.
+
+(* ---- "per hour": inside one window of the first attempt from a prefix, at most the cap *)
+Section JoinWindow.
+  Variables (jc : jcfg) (cap : N) (tr : list (N * addr)) (t0 : N).
+  Hypothesis Hfit : join_fits cap tr.
+  Let rs := snd (join_run jc cap js_init tr).
+
+  Lemma join_window_64 p :
+    Forall (fun t => t0 <= t /\ t <= t0 + W64) (map fst tr) -> count_ok (in64 p) tr rs <= j_per64 jc.
+  Proof.
+    intro HF. destruct Hfit as (_ & H64 & _ & _).
+    destruct (join_engines jc cap tr js_init) as (_ & E64 & _ & _). cbn zeta in E64. fold rs in E64.
+    cbn [js_init s_64] in E64.
+    pose proof (count64_le p tr rs) as HC.
+    pose proof (engine_key_window_U (cfg64 jc) cap (nodup N.eq_dec (map ext64 (v6s tr))) (trace64 tr rs) p t0) as HB.
+    rewrite E64 in HB. cbn [snd cfg64 c_window c_burst c_max] in HB.
+    specialize (HB ltac:(intros x Hx; apply nodup_In; eapply trace64_keys; exact Hx) H64
+                   (Forall_subl _ _ _ (trace64_times tr rs) HF)).
+    lia.
+  Qed.
+
+  Lemma join_window_48 p :
+    Forall (fun t => t0 <= t /\ t <= t0 + W48) (map fst tr) -> count_ok (in48 p) tr rs <= j_per48 jc.
+  Proof.
+    intro HF. destruct Hfit as (_ & _ & H48 & _).
+    destruct (join_engines jc cap tr js_init) as (_ & _ & E48 & _). cbn zeta in E48. fold rs in E48.
+    cbn [js_init s_48] in E48.
+    pose proof (count48_le p tr rs) as HC.
+    pose proof (engine_key_window_U (cfg48 jc) cap (nodup N.eq_dec (map ext48 (v6s tr))) (trace48 tr rs) p t0) as HB.
+    rewrite E48 in HB. cbn [snd cfg48 c_window c_burst c_max] in HB.
+    specialize (HB ltac:(intros x Hx; apply nodup_In; eapply trace48_keys; exact Hx) H48
+                   (Forall_subl _ _ _ (trace48_times tr rs) HF)).
+    lia.
+  Qed.
+
+  Lemma join_window_24 p :
+    Forall (fun t => t0 <= t /\ t <= t0 + W24) (map fst tr) -> count_ok (in24 p) tr rs <= j_per24 jc.
+  Proof.
+    intro HF. destruct Hfit as (_ & _ & _ & H24).
+    destruct (join_engines jc cap tr js_init) as (_ & _ & _ & E24). cbn zeta in E24. fold rs in E24.
+    cbn [js_init s_24] in E24.
+    pose proof (count24_le p tr rs) as HC.
+    pose proof (engine_key_window_U (cfg24 jc) cap (nodup N.eq_dec (map ext24 (v4s tr))) (trace24 tr rs) p t0) as HB.
+    rewrite E24 in HB. cbn [snd cfg24 c_window c_burst c_max] in HB.
+    specialize (HB ltac:(intros x Hx; apply nodup_In; eapply trace24_keys; exact Hx) H24
+                   (Forall_subl _ _ _ (trace24_times tr rs) HF)).
+    lia.
+  Qed.
+End JoinWindow.
+
+(* ================================================================== prefixes as bit arithmetic *)
+Lemma zero_low_eq_iff d a b : zero_low d a = zero_low d b <-> N.shiftr a d = N.shiftr b d.
+Proof.
+  unfold zero_low. split; intro H; [|rewrite H; reflexivity].
+  rewrite !N.shiftl_mul_pow2 in H. apply N.mul_cancel_r in H; [exact H|].
+  apply N.pow_nonzero. discriminate.
+Qed.
+
+Lemma shiftr_eq_iff_bits d a b :
+  N.shiftr a d = N.shiftr b d <-> (forall i, d <= i -> N.testbit a i = N.testbit b i).
+Proof.
+  split.
+  - intros H i Hi. replace i with ((i - d) + d) by lia. rewrite <- !N.shiftr_spec by lia. rewrite H. reflexivity.
+  - intro H. apply N.bits_inj. intro m. rewrite !N.shiftr_spec by lia. apply H. lia.
+Qed.
+
+Lemma zero_low_div d a : zero_low d a = (a / 2 ^ d) * 2 ^ d.
+Proof. unfold zero_low. rewrite N.shiftl_mul_pow2, N.shiftr_div_pow2. reflexivity. Qed.
+
+Lemma zero_low_sub d a : zero_low d a = a - a mod 2 ^ d.
+Proof.
+  rewrite zero_low_div.
+  assert (Hp : 2 ^ d <> 0) by (apply N.pow_nonzero; discriminate).
+  generalize dependent (2 ^ d). intros p Hp.
+  pose proof (N.div_mod a p Hp) as H. rewrite (N.mul_comm p) in H.
+  generalize dependent (a / p * p). intros m H. lia.
+Qed.
+
+Lemma zero_low_bits d a i : N.testbit (zero_low d a) i = if i <? d then false else N.testbit a i.
+Proof.
+  unfold zero_low. destruct (i <? d) eqn:E.
+  - apply N.shiftl_spec_low. lia.
+  - rewrite N.shiftl_spec_high' by lia. rewrite N.shiftr_spec by lia. f_equal. lia.
+Qed.
+
+Lemma zero_low_idem d a : zero_low d (zero_low d a) = zero_low d a.
+Proof.
+  apply N.bits_inj. intro i. rewrite !zero_low_bits. destruct (i <? d); reflexivity.
+Qed.
+
+(* same /64 <=> same /48 for coarser: a shared /64 implies a shared /48 *)
+Lemma same64_same48 a b : ext64 a = ext64 b -> ext48 a = ext48 b.
+Proof.
+  unfold ext64, ext48. rewrite !zero_low_eq_iff, !shiftr_eq_iff_bits. intros H i Hi. apply H. lia.
+Qed.
+
+Lemma v4_mapped_64 x : x < 4294967296 -> ext64 (v4_mapped x) = 0.
+Proof.
+  intro H. unfold ext64, zero_low, v4_mapped. rewrite N.shiftr_div_pow2.
+  change (2 ^ 64) with 18446744073709551616. rewrite N.div_small by lia. reflexivity.
+Qed.
+Lemma v4_mapped_48 x : x < 4294967296 -> ext48 (v4_mapped x) = 0.
+Proof.
+  intro H. unfold ext48, zero_low, v4_mapped. rewrite N.shiftr_div_pow2.
+  change (2 ^ 80) with 1208925819614629174706176. rewrite N.div_small by lia. reflexivity.
+Qed.
+
+(* ================================================================== monotonicity in time (token part) *)
+(* if every gap of timeline g' is at least the corresponding gap of g, then after every call the
+   faster-clock run has admitted at least as many attempts *)
+Lemma tb_run_cons c tok g r :
+  tb_run c tok (g :: r) =
+  (fst (tb_run c (fst (tb_step c g tok)) r), snd (tb_step c g tok) :: snd (tb_run c (fst (tb_step c g tok)) r)).
+Proof.
+  cbn [tb_run]. destruct (tb_step c g tok) as [t1 x]. cbn [fst snd].
+  destruct (tb_run c t1 r) as [t2 xs]. reflexivity.
+Qed.
+
+Lemma tb_mono_step c g g' tok tok' d :
+  g <= g' -> tok <= tok' + d * c_window c -> tok <= tok_cap c -> tok' <= tok_cap c ->
+  let r := tb_step c g tok in let r' := tb_step c g' tok' in
+  exists d', d' + (if snd r then 1 else 0) = d + (if snd r' then 1 else 0) /\
+             fst r <= fst r' + d' * c_window c /\ fst r <= tok_cap c /\ fst r' <= tok_cap c.
+Proof.
+  intros Hg Ht Hc Hc'. cbn zeta. unfold tb_step.
+  set (W := c_window c) in *. set (C := tok_cap c) in *.
+  assert (HM : g * c_max c <= g' * c_max c) by (apply N.mul_le_mono_r; exact Hg).
+  set (A := g * c_max c) in *. set (A' := g' * c_max c) in *.
+  assert (H1 : N.min (tok + A) C <= N.min (tok' + A') C + d * W) by lia.
+  set (t1 := N.min (tok + A) C) in *. set (t1' := N.min (tok' + A') C) in *.
+  assert (Hc1 : t1 <= C) by lia. assert (Hc1' : t1' <= C) by lia.
+  destruct (W <=? t1) eqn:E; destruct (W <=? t1') eqn:E'; cbn [fst snd].
+  - exists d. repeat split; lia.
+  - (* slow clock admits, fast clock does not: the fast run must be ahead *)
+    assert (Hd : 1 <= d).
+    { destruct (N.eq_dec d 0) as [->|]; [|lia]. rewrite N.mul_0_l in H1. lia. }
+    exists (d - 1). repeat split; try lia; rewrite N.mul_sub_distr_r; lia.
+  - exists (d + 1). repeat split; try lia; rewrite N.mul_add_distr_r; lia.
+  - exists d. repeat split; lia.
+Qed.
+
+Lemma tb_mono c gs : forall gs' tok tok' d,
+  Forall2 N.le gs gs' -> tok <= tok' + d * c_window c -> tok <= tok_cap c -> tok' <= tok_cap c ->
+  forall n, ntrue (firstn n (snd (tb_run c tok gs))) <= d + ntrue (firstn n (snd (tb_run c tok' gs'))).
+Proof.
+  induction gs as [|g r IH]; intros gs' tok tok' d HF Ht Hc Hc' n.
+  - inv HF. cbn. destruct n; cbn; lia.
+  - inv HF. rewrite !tb_run_cons. cbn [snd].
+    destruct n as [|n]; [cbn; lia|]. cbn [firstn ntrue].
+    destruct (tb_mono_step c g y tok tok' d H1 Ht Hc Hc') as (d' & Hd & Hle & Hc1 & Hc1').
+    specialize (IH l' _ _ d' H3 Hle Hc1 Hc1' n).
+    destruct (snd (tb_step c g tok)); destruct (snd (tb_step c y tok')); lia.
+Qed.
+
+(* the full bucket coincides with its token part while the window counter cannot bind *)
+Lemma tb_agrees c gs : forall b,
+  Inv c b ->
+  b_inwin b + N.of_nat (length gs) <= c_max c ->
+  snd (bucket_run c b (times_from (b_last b) gs)) = snd (tb_run c (b_tok b) gs) /\
+  b_tok (fst (bucket_run c b (times_from (b_last b) gs))) = fst (tb_run c (b_tok b) gs).
+Proof.
+  induction gs as [|g r IH]; intros b HI Hlen; [cbn; auto|].
+  cbn [times_from]. rewrite bucket_run_cons, tb_run_cons. cbn [fst snd].
+  cbn [length] in Hlen.
+  assert (Hstep : snd (try_consume c (b_last b + g) b) = snd (tb_step c g (b_tok b)) /\
+                  b_tok (fst (try_consume c (b_last b + g) b)) = fst (tb_step c g (b_tok b)) /\
+                  b_inwin (fst (try_consume c (b_last b + g) b)) <= b_inwin b + 1).
+  { unfold try_consume, tb_step, can_admit. cbn zeta.
+    assert (Etok : b_tok (tick c (b_last b + g) b) = N.min (b_tok b + g * c_max c) (tok_cap c)).
+    { unfold tick. cbn [b_tok]. f_equal. f_equal. f_equal. lia. }
+    pose proof (tick_inwin_le c (b_last b + g) b) as Hiw.
+    rewrite Etok.
+    assert (Eiw : (b_inwin (tick c (b_last b + g) b) <? c_max c) = true) by lia.
+    rewrite Eiw, andb_true_r.
+    destruct (c_window c <=? N.min (b_tok b + g * c_max c) (tok_cap c)); cbn [fst snd consume b_tok b_inwin].
+    - rewrite Etok. repeat split; lia.
+    - rewrite Etok. repeat split; lia. }
+  destruct Hstep as (E1 & E2 & E3).
+  pose proof (inv_try c (b_last b + g) b HI) as HI'.
+  pose proof (try_last c (b_last b + g) b) as HL.
+  specialize (IH (fst (try_consume c (b_last b + g) b)) HI' ltac:(lia)).
+  rewrite HL, E2 in IH. destruct IH as [IH1 IH2].
+  rewrite IH1, IH2, E1. split; reflexivity.
+Qed.
+
+Lemma Forall2_len {A B} (R : A -> B -> Prop) l l' : Forall2 R l l' -> length l = length l'.
+Proof. induction 1; cbn; congruence. Qed.
+
+Lemma times_from_length t0 gs : length (times_from t0 gs) = length gs.
+Proof. revert t0. induction gs as [|g r IH]; intro t0; cbn; [reflexivity|]. rewrite IH. reflexivity. Qed.
+
+(* a fresh key, first used at t0, later calls after the given gaps; the window counter cannot
+   bind because there are no more calls than max *)
+Lemma fresh_monotone c t0 gs gs' :
+  Forall2 N.le gs gs' -> N.of_nat (length gs) + 1 <= c_max c ->
+  forall n, ntrue (firstn n (snd (obucket_run c None (t0 :: times_from t0 gs))))
+            <= ntrue (firstn n (snd (obucket_run c None (t0 :: times_from t0 gs')))).
+Proof.
+  intros HF Hlen n. rewrite !obucket_run_none.
+  pose proof (Forall2_len _ _ _ HF) as HL.
+  assert (E : forall l, t0 :: times_from t0 l = times_from (b_last (bucket_new c t0)) (0 :: l)).
+  { intro l. cbn [bucket_new b_last times_from]. rewrite N.add_0_r. reflexivity. }
+  rewrite !E.
+  destruct (tb_agrees c (0 :: gs) (bucket_new c t0) (inv_new c t0)) as [A1 _].
+  { cbn [bucket_new b_inwin length]. lia. }
+  destruct (tb_agrees c (0 :: gs') (bucket_new c t0) (inv_new c t0)) as [A2 _].
+  { cbn [bucket_new b_inwin length]. lia. }
+  rewrite A1, A2.
+  pose proof (tb_mono c (0 :: gs) (0 :: gs') (b_tok (bucket_new c t0)) (b_tok (bucket_new c t0)) 0) as HM.
+  specialize (HM ltac:(constructor; [lia|exact HF]) ltac:(lia)).
+  cbn [bucket_new b_tok] in *. specialize (HM ltac:(lia) ltac:(lia) n). lia.
+Qed.
+
+(* ================================================================== denial at the engine level *)
+Lemma engine_try_denied c cap now k e U :
+  EI U e -> In k U -> N.of_nat (length U) <= cap ->
+  snd (engine_try c cap now k e) = false ->
+  e_find k (fst (engine_try c cap now k e)) =
+    Some (tick c now (match e_find k e with Some b => b | None => bucket_new c now end)) /\
+  (forall k', k' <> k -> e_find k' (fst (engine_try c cap now k e)) = e_find k' e).
+Proof.
+  intros HE Hk Hc Hd.
+  destruct (engine_try_spec c cap now k e U HE Hk Hc) as (_ & Hres & Hfk & Hfo).
+  split; [|exact Hfo]. rewrite Hfk. f_equal. unfold obucket_try in *.
+  apply try_denied_is_tick. rewrite <- Hres. exact Hd.
+Qed.
+
+(* ================================================================== validation::RateLimiter *)
+Definition ip_passed (r : ipres) : bool := negb (ipres_eqb r IpGlobal).
+Definition ip_ok (r : ipres) : bool := ipres_eqb r IpOk.
+Fixpoint ip_trace (tr : list (N * N)) (rs : list ipres) : list (N * N) :=
+  match tr, rs with
+  | (now, k) :: tr', x :: rs' => if ip_passed x then (now, k) :: ip_trace tr' rs' else ip_trace tr' rs'
+  | _, _ => []
+  end.
+Fixpoint ip_adm (tr : list (N * N)) (rs : list ipres) : list bool :=
+  match tr, rs with
+  | (now, k) :: tr', x :: rs' => if ip_passed x then ip_ok x :: ip_adm tr' rs' else ip_adm tr' rs'
+  | _, _ => []
+  end.
+
+Lemma ip_run_cons c cap st now k r :
+  ip_run c cap st ((now, k) :: r) =
+  (fst (ip_run c cap (fst (check_ip c cap now k st)) r),
+   snd (check_ip c cap now k st) :: snd (ip_run c cap (fst (check_ip c cap now k st)) r)).
+Proof.
+  cbn [ip_run]. destruct (check_ip c cap now k st) as [s1 x]. cbn [fst snd].
+  destruct (ip_run c cap s1 r) as [s2 xs]. reflexivity.
+Qed.
+
+Lemma ip_engines c cap tr : forall st,
+  let st' := fst (ip_run c cap st tr) in
+  let rs := snd (ip_run c cap st tr) in
+  bucket_run c (fst st) (map fst tr) = (fst st', map ip_passed rs) /\
+  engine_run c cap (snd st) (ip_trace tr rs) = (snd st', ip_adm tr rs).
+Proof.
+  induction tr as [|[now k] r IH]; intro st; cbn zeta.
+  - cbn. destruct st; auto.
+  - rewrite ip_run_cons. cbn [fst snd].
+    specialize (IH (fst (check_ip c cap now k st))). cbn zeta in IH. destruct IH as [IHg IHk].
+    revert IHg IHk. unfold check_ip. destruct st as [g e].
+    destruct (try_consume c now g) as [g' okg] eqn:EG. destruct okg.
+    + destruct (engine_try c cap now k e) as [e' okk] eqn:EK. cbn [fst snd]. intros IHg IHk.
+      cbn [map fst bucket_run]. rewrite EG, IHg.
+      destruct okk; cbn [map ip_passed ipres_eqb negb ip_trace ip_adm ip_ok engine_run];
+        rewrite EK, IHk; auto.
+    + cbn [fst snd]. intros IHg IHk.
+      cbn [map fst bucket_run]. rewrite EG, IHg.
+      cbn [map ip_passed ipres_eqb negb ip_trace ip_adm]. auto.
+Qed.
+
+Lemma ip_run_length c cap tr : forall st, length (snd (ip_run c cap st tr)) = length tr.
+Proof.
+  induction tr as [|[now k] r IH]; intro st; [reflexivity|].
+  rewrite ip_run_cons. cbn [snd length]. rewrite IH. reflexivity.
+Qed.
+
+(* requests that pass the shared global bucket *)
+Lemma ip_global_bound c cap t_create tr :
+  ntrue (map ip_passed (snd (ip_run c cap (ip_init c t_create) tr))) * c_window c
+  <= c_burst c * c_window c + c_max c * span_from t_create (map fst tr).
+Proof.
+  destruct (ip_engines c cap tr (ip_init c t_create)) as [EG _]. cbn zeta in EG.
+  cbn [ip_init fst] in EG.
+  pose proof (bucket_bound c (bucket_new c t_create) (map fst tr) (inv_new c t_create)) as HB.
+  rewrite EG in HB. cbn [snd bucket_new b_last] in HB. exact HB.
+Qed.
+
+Lemma ip_trace_times tr : forall rs, subl (map fst (ip_trace tr rs)) (map fst tr).
+Proof.
+  induction tr as [|[now k] r IH]; intros rs; [destruct rs; constructor|].
+  destruct rs as [|x xs]; cbn [ip_trace map fst]; [apply subl_nil|].
+  destruct (ip_passed x); cbn [map fst]; [apply subl_cons|apply subl_skip]; apply IH.
+Qed.
+Lemma ip_trace_keys tr : forall rs x, In x (map snd (ip_trace tr rs)) -> In x (map snd tr).
+Proof.
+  induction tr as [|[now k] r IH]; intros rs x; [destruct rs; cbn; tauto|].
+  destruct rs as [|y ys]; cbn [ip_trace map snd In]; [tauto|].
+  destruct (ip_passed y); cbn [map snd In]; [intros [H|H]; [left; exact H|right; eapply IH; exact H]|].
+  intro H. right. eapply IH. exact H.
+Qed.
+Lemma count_ip_le k tr : forall rs,
+  count_ip k IpOk tr rs <= ntrue (results_of k (ip_trace tr rs) (ip_adm tr rs)).
+Proof.
+  induction tr as [|[now q] r IH]; intros [|x xs]; cbn [count_ip ip_trace ip_adm results_of ntrue]; try lia.
+  specialize (IH xs).
+  destruct x; cbn [ip_passed ipres_eqb negb ip_ok results_of ntrue andb];
+    destruct (q =? k); cbn [andb ntrue]; lia.
+Qed.
+
+(* requests admitted for one IP *)
+Lemma ip_key_bound c cap t_create tr k :
+  distinct (map snd tr) <= cap ->
+  count_ip k IpOk tr (snd (ip_run c cap (ip_init c t_create) tr)) * c_window c
+  <= c_burst c * c_window c + c_max c * span (map fst tr).
+Proof.
+  intro Hd. set (rs := snd (ip_run c cap (ip_init c t_create) tr)).
+  destruct (ip_engines c cap tr (ip_init c t_create)) as [_ EK]. cbn zeta in EK. fold rs in EK.
+  cbn [ip_init snd] in EK.
+  pose proof (engine_key_bound_U c cap (nodup N.eq_dec (map snd tr)) (ip_trace tr rs) k) as HB.
+  rewrite EK in HB. cbn [snd] in HB.
+  specialize (HB ltac:(intros x Hx; apply nodup_In; eapply ip_trace_keys; exact Hx) Hd).
+  pose proof (count_ip_le k tr rs) as HC.
+  pose proof (span_subl _ _ (ip_trace_times tr rs)) as HS.
+  assert (c_max c * span (map fst (ip_trace tr rs)) <= c_max c * span (map fst tr)) by (apply N.mul_le_mono_l; exact HS).
+  assert (count_ip k IpOk tr rs * c_window c <= ntrue (results_of k (ip_trace tr rs) (ip_adm tr rs)) * c_window c)
+    by (apply N.mul_le_mono_r; exact HC).
+  lia.
+Qed.
